@@ -84,6 +84,35 @@ class MapIter(Opaque):
                     raise Unsupported('drop of drain iterator with symbolic presence')
 
 
+class ListVal(Opaque):
+    """Vec<T> for T other than u8: a concrete-length list of cells (lengths never depend on symbolic data except through forks)"""
+    def __init__(self, items=None, name='vec'):
+        self.items = list(items or [])   # Cells
+        self.name = name
+
+    def len_value(self, ex, st):
+        return Int(z3.BitVecVal(len(self.items), 64), 64, False)
+
+    def on_drop(self, ex, st):
+        for c in self.items:
+            ex.drop_fields(st, c.value)
+        self.items = []
+
+    def __repr__(self):
+        return f"ListVal({len(self.items)})"
+
+
+class ListIter(Opaque):
+    def __init__(self, items, by_ref):
+        self.items, self.by_ref, self.pos = items, by_ref, 0
+
+    def on_drop(self, ex, st):
+        if not self.by_ref:
+            for c in self.items[self.pos:]:
+                ex.drop_fields(st, c.value)
+            self.pos = len(self.items)
+
+
 def find_entry(ex, st, carry, mref_idx, key_of):
     """fork over which entry of the map matches key. yields (st, carry, entry_index|None)"""
     out = []
@@ -197,7 +226,105 @@ def common_summaries():
 
     @reg(r' as IntoIterator>::into_iter$')
     def into_iter(ex, st, fn, argv):
+        v = argv[0]
+        if isinstance(v, ListVal):
+            it = ListIter(v.items, False)
+            v.items = []
+            return [(st, it)]
+        if isinstance(v, Ref):
+            tgt = ex.read_path(st, v.cell, v.path)
+            if isinstance(tgt, ListVal):
+                return [(st, ListIter(tgt.items, True))]
         return [(st, argv[0])]
+
+    # ---------------- Vec<T> (T != u8): concrete-length lists
+    @reg(r'^Vec::<(?!u8>).*>::(new|with_capacity)$|^<Vec<(?!u8>).*> as Default>::default$')
+    def list_new(ex, st, fn, argv):
+        return [(st, ListVal())]
+
+    @reg(r'^Vec::<(?!u8>).*>::push$')
+    def list_push(ex, st, fn, argv):
+        deref(ex, st, argv[0]).items.append(Cell(argv[1], 'elem'))
+        return [(st, Unit())]
+
+    @reg(r'^Vec::<(?!u8>).*>::pop$')
+    def list_pop(ex, st, fn, argv):
+        v = deref(ex, st, argv[0])
+        return [(st, mk_option(v.items.pop().value) if v.items else mk_option())]
+
+    @reg(r'^Vec::<(?!u8>).*>::len$')
+    def list_len(ex, st, fn, argv):
+        return [(st, deref(ex, st, argv[0]).len_value(ex, st))]
+
+    @reg(r'^Vec::<(?!u8>).*>::is_empty$')
+    def list_is_empty(ex, st, fn, argv):
+        return [(st, Bool(len(deref(ex, st, argv[0]).items) == 0))]
+
+    @reg(r'^Vec::<(?!u8>).*>::clear$')
+    def list_clear(ex, st, fn, argv):
+        deref(ex, st, argv[0]).on_drop(ex, st)
+        return [(st, Unit())]
+
+    @reg(r'^Vec::<(?!u8>).*>::iter$|^core::slice::<impl \[(?!u8\]).*\]>::iter$')
+    def list_iter(ex, st, fn, argv):
+        return [(st, ListIter(deref(ex, st, argv[0]).items, True))]
+
+    @reg(r'^Vec::<(?!u8>).*>::drain::<(std::ops::)?RangeFull>$')
+    def list_drain(ex, st, fn, argv):
+        v = deref(ex, st, argv[0])
+        it = ListIter(v.items, False)
+        v.items = []
+        return [(st, it)]
+
+    @reg(r'^<(std::)?(vec::IntoIter|slice::Iter|vec::Drain)<.*> as Iterator>::next$')
+    def list_next(ex, st, fn, argv):
+        it = deref(ex, st, argv[0])
+        if not isinstance(it, ListIter):
+            return NotImplemented
+        if it.pos >= len(it.items):
+            return [(st, mk_option())]
+        c = it.items[it.pos]
+        it.pos += 1
+        return [(st, mk_option(Ref(c) if it.by_ref else c.value))]
+
+    def iter_items(ex, st, carry, idx):
+        """exhaust an owning iterator model -> [(state, carry, [values])] (forks over symbolic presence of map entries)"""
+        it = deref(ex, st, carry[idx]) if isinstance(carry[idx], Ref) else carry[idx]
+        if isinstance(it, ListIter):
+            vals = [c.value for c in it.items[it.pos:]]
+            it.pos = len(it.items)
+            return [(st, carry, vals)]
+        if isinstance(it, MapIter) and not it.by_ref:
+            outs = []
+            pending = [(st, carry, [])]
+            while pending:
+                s, c, acc = pending.pop()
+                itx = deref(ex, s, c[idx]) if isinstance(c[idx], Ref) else c[idx]
+                if itx.pos >= len(itx.items):
+                    outs.append((s, c, acc))
+                    continue
+                itx.pos += 1
+                for (s2, c2, truth) in ex.fork_on(s, itx.items[itx.pos - 1][2], (c, acc)):
+                    c3, acc3 = c2
+                    if truth:
+                        it2 = deref(ex, s2, c3[idx]) if isinstance(c3[idx], Ref) else c3[idx]
+                        e2 = it2.items[it2.pos - 1]
+                        acc3 = list(acc3) + [Agg({0: e2[0], 1: e2[1]}, 'tuple')]
+                    pending.append((s2, c3, acc3))
+            return outs
+        raise Unsupported(f"collect/extend from {it!r}")
+
+    @reg(r' as Iterator>::collect::<Vec<(?!u8>).*>>$')
+    def iter_collect_vec(ex, st, fn, argv):
+        return [(s, ListVal([Cell(v, 'elem') for v in vals])) for (s, c, vals) in iter_items(ex, st, list(argv), 0)]
+
+    @reg(r'^<Vec<(?!u8>).*> as Extend<.*>>::extend::<|^Vec::<(?!u8>).*>::extend::<')
+    def list_extend(ex, st, fn, argv):
+        outs = []
+        for (s, c, vals) in iter_items(ex, st, list(argv), 1):
+            deref(ex, s, c[0]).items.extend(Cell(v, 'elem') for v in vals)
+            outs.append((s, Unit()))
+        return outs
 
     @reg(r'<std::collections::hash_map::(Drain|Iter)<.*> as Iterator>::next$')
     def map_next(ex, st, fn, argv):
